@@ -3,7 +3,7 @@
 its public API (RustBinaryId's Ord, TestPriority, ThreadsRequired::compute, the priority sort) +
 an independent oracle replaying the implementation's own start/complete log."""
 import json, os
-import vlib
+import vlib, gen_tie
 from vlib import coq_str, coq_list
 from props import fq_common as fq
 
@@ -142,6 +142,10 @@ def run(tier, seed):
     chk = vlib.Check(PROP, tier, seed)
     gate = vlib.coq_gate(PROP)
     vlib.gate_or_violation(chk, gate)
+    # DESIGN 11.7 (second round): these decisions are regenerated from the Rust source and proved equal to the
+    # model's for all inputs; a failure is reported when the check finishes unless a stage below finds a
+    # concrete failing input
+    gen_tie.gate(chk, ['cap_strat', 'build_test_threads', 'runner_settings', 'no_capture_serial', 'threads_required'], gate)
     binary, err = vlib.build_harness()
     if binary is None:
         chk.violation("broken-obligation", "harness-build", dict(error=err), no_input=True)
